@@ -136,14 +136,10 @@ PROPERTIES = {
              "obligation": "kani/style::format_bar-after-fraction",
              "what": "filled == cells exactly when position >= length, 0 at position 0 -- ALL positions, lengths <= 2^24, widths 1..65535",
              "trusted": ["Kani/CBMC float model", "Instant::now and RandomState::new stubbed"]},
-            {"harness": "c13_filled_monotone", "timeout": 7200, "complete": True,
-             "obligation": "kani/style::format_bar-monotone",
-             "what": "p1 <= p2 ==> filled(p1) <= filled(p2) -- ALL positions, lengths <= 2^24, widths <= 65535",
-             "trusted": ["Kani/CBMC float model", "Instant::now and RandomState::new stubbed"]},
         ],
         "level": "proof",
         "explanation": "BarDisplay::fmt and RepeatedStringDisplay::fmt extracted and verified by Verus: the bar text is filled cells, then at most one partial cell (one of the configured progress characters), then background cells, in that order; cell-budget and wide_bar width arithmetic as lemmas. format_bar itself is verified by Verus over the reals (cells = floor(width / char_width), filled = floor(fraction * cells), partial cell iff neither empty nor full and always a configured progress character, background fills the rest; monotone in the fraction) and, for its f32 arithmetic, decided on the unmodified function by loop-free Kani harnesses over the full stated domains (thorough tier).",
-        "level_text": "Deductive proof (Verus) of the cell order and the integer arithmetic for all inputs; bit-precise proof (Kani/CBMC) of floor(fraction*cells), the partial-cell condition, index validity, full-iff-complete up to 2^24 and monotonicity over all inputs of the stated domains.",
+        "level_text": "Deductive proof (Verus) of the cell order and the integer arithmetic for all inputs; bit-precise proof (Kani/CBMC) of floor(fraction*cells), the partial-cell condition, index validity, full-iff-complete up to 2^24 over all inputs of the stated domains. Monotonicity of the filled count is proved over the reals (Verus lemma filled_monotone: floor(f * cells) is monotone in f, and fraction is monotone in the position) and checked on the real f32 code by the bounded routine bar_cells; a Kani harness for it (c13_filled_monotone, kept in kani/style.rs) did not terminate within two hours even on a 2^10 x 2^10 x 2^8 box and is not part of any tier.",
         "level_note": "Assumed: console::StyledObject printing, core::fmt sink. The quick tier runs the Verus unit only; the three Kani harnesses take 5 to 60 minutes and run in the thorough tier (a timeout there is reported as undecided). That WideElement::expand hands format_bar the remaining width is decided in C11's unit (format_state).",
         "assumptions": ["cell widths 1..2 and 2..5 progress characters in the Kani fixture", "IEEE-754 semantics as implemented by CBMC"],
     },
